@@ -205,6 +205,9 @@ def decode_value(e):
     return e
 
 
+_SHARED_PRINTERS = {}
+
+
 class Obj:
     """a printable object built from a spec; .render(...) -> (whole_text, lines_text)"""
 
@@ -214,8 +217,35 @@ class Obj:
         k = spec["k"]
         self.k = k
         if k == "pp":
-            self.printer = P.PrettyPrinter(fmt_json=bool(spec.get("json")))
+            if spec.get("shared"):
+                # the long-lived printers of the process: ak.ppobj.pp and one JSON-mode printer
+                sh = _SHARED_PRINTERS.get("mod")
+                if sh is not P:
+                    _SHARED_PRINTERS.clear()
+                    _SHARED_PRINTERS.update({"mod": P, "json": P.PrettyPrinter(fmt_json=True), "py": P.pp})
+                self.printer = _SHARED_PRINTERS["json" if spec.get("json") else "py"]
+            else:
+                self.printer = P.PrettyPrinter(fmt_json=bool(spec.get("json")))
             self.value = decode_value(spec["value"])
+        elif k == "table" and spec.get("refmt") and spec.get("_as_final"):
+            # the same records with the final format given to the constructor directly
+            rf = spec["refmt"]
+            self.table = tables.build(P, dict(spec["case"], cols=rf["final"]["cols"], limits=rf["final"]["limits"],
+                                              limits_via="fmt", skip=[]))
+        elif k == "table" and spec.get("refmt"):
+            # a table with a past: printed, re-formatted (fmt setter / remove_columns), printed in between
+            rf = spec["refmt"]
+            a = spec["case"]
+            self.table = tables.build(P, a)
+            str(self.table.ch_text(no_color=not rf.get("first_colored")))
+            for st_ in rf["steps"]:
+                if st_[0] == "fmt":
+                    b = dict(a, cols=st_[1], limits=st_[2], limits_via="fmt", no_value_path=True)
+                    self.table.fmt = tables.fmt_string(b) or ""
+                elif st_[0] == "remove":
+                    self.table.remove_columns(list(st_[1]))
+                else:
+                    str(self.table.ch_text(no_color=not st_[1]))
         elif k == "table":
             self.table = tables.build(P, spec["case"])
         elif k == "record":
